@@ -425,8 +425,8 @@ def abandoned_procs(ix: Index) -> list:
         return cached
     out = []
     for x in ix.exit.values():
-        if x['out'] != 'cancel':
-            continue
+        if x['out'] != 'cancel' or x['seq'] >= ix.quiet_seq:
+            continue  # cancellations made by the harness's tear-down are not part of the scenario
         for p in ix.procs.values():
             if p['b']['drv'] == x['inv'] and p['b']['seq'] < x['seq'] and (p['e'] is None or p['e']['seq'] >= x['seq'] or p['e']['exc'] is not None):
                 p['cancel_seq'] = x['seq']
@@ -459,8 +459,8 @@ def c04(ix: Index) -> None:
             # no return: fine if the awaiting handler was cancelled / is itself blocked for a recorded reason
             if isinstance(by, int):
                 x = ix.exit.get(by)
-                if x is not None and x['out'] == 'cancel':
-                    continue
+                if x is not None and x['out'] == 'cancel' and x['seq'] < ix.quiet_seq:
+                    continue  # cancelled during the scenario (timeout); a handler only ended by tear-down never returned
             if ix.sane and not _stopped_buses(ix):
                 ix.v('C04', 'await-never-returns', 'F14' if isinstance(by, str) else _hang_mech(ix, {a['ev']} | ix.desc(a['ev'])), ev=a['ev'], by=by)
             continue
@@ -664,7 +664,9 @@ def c09(ix: Index) -> None:
         ix.C['c09_events'] += 1
         xp = ix.mk[ev].get('xparent')
         by = ix.disp_by.get(ev)
-        if xp:
+        if xp == 'self':
+            want_parent = ix.inv[by]['ev'] if isinstance(by, int) and by in ix.inv else None
+        elif xp:
             want_parent = xp
         elif isinstance(by, int) and ev in accepted_evs:
             want_parent = ix.inv[by]['ev']
@@ -798,14 +800,16 @@ def c14(ix: Index) -> None:
                         others = [c for c in ix.kids.get(p, []) if not fin.get(c, {}).get('sig')]
                         if not others:
                             ix.v('C14', 'rejected-dispatch-blocks-parent', _hang_mech(ix, {p} | ix.desc(p)), parent=p, ev=ev)
-            if not anywhere and fin.get(ev, {}).get('path'):
+            if not anywhere and fin.get(ev, {}).get('path') and not ix.mk[ev].get('prepath'):
                 ix.v('C14', 'rejected-event-has-path', None, ev=ev, path=fin[ev]['path'])
     if ix.sane:
         for (ev, bus), n in accepted_evs.items():
             ix.C['c14_accepted'] += 1
             done = sum(1 for p in ix.procs_by.get((ev, bus), []) if p['e'] is not None)
-            if done < 1 and bus not in _stopped_buses(ix):
-                ix.v('C14', 'accepted-event-never-processed', _hang_mech(ix, {ev}), ev=ev, bus=bus)
+            if done < n and bus not in _stopped_buses(ix):
+                # every accepted dispatch is a queue entry of its own and is taken for processing (a second pass over an event
+                # that already has its results runs no handler, but it is processed): accepted n times => processed n times
+                ix.v('C14', 'accepted-event-never-processed', _hang_mech(ix, {ev}), ev=ev, bus=bus, accepted=n, processed=done)
     for r in ix.R:
         if r['k'] == 'enq_call':
             nxt = next((q for q in ix.R if q['seq'] > r['seq'] and q['k'] in ('enq_ok', 'enq_raise') and q['ev'] == r['ev'] and q['bus'] == r['bus']), None)
@@ -883,7 +887,7 @@ def c16(ix: Index) -> None:
         if ret is None:
             if isinstance(c['by'], int):
                 x = ix.exit.get(c['by'])
-                if x is not None and x['out'] == 'cancel':
+                if x is not None and x['out'] == 'cancel' and x['seq'] < ix.quiet_seq:
                     continue  # a handler that stops the bus it runs on is cancelled together with that bus's run loop
             if _actor_fate(ix, c['by']) != 'cancelled':
                 ix.v('C16', 'stop-never-returns', None, bus=c['bus'], timeout=c['timeout'], by=c['by'])
@@ -1001,6 +1005,15 @@ def c10(ix: Index) -> None:
                 pass
             elif x is not None and x['out'] == 'cancel' or ended is None or ended > deadline + 1e-3:
                 ix.v('C10', 'result-not-timeout-error', None, ev=i['ev'], h=i['h'], result=res)
+    # a handler that raises TimeoutError itself (its own wait_for, a child's error re-raised) goes through the same library path
+    raised_te = [inv for inv, x in ix.exit.items() if x['out'] == 'raise' and x['et'] == 'TimeoutError']
+    for inv in raised_te:
+        i = ix.inv[inv]
+        ix.C['c10_user_raised_timeout_errors'] += 1
+        res = next((q for q in fin.get(i['ev'], {}).get('results', []) if q['hid'] == f"B{i['bus']}.h{i['h']}"), None)
+        if ix.sane and (res is None or res['status'] != 'error'):
+            ix.v('C10', 'handler-raised-timeouterror-not-recorded-as-error', None, ev=i['ev'], h=i['h'], result=res)
+    fired = fired + [inv for inv in raised_te if inv not in fired]
     if not fired:
         return
     f5 = _hang_mech_bus(ix, -1)
